@@ -83,7 +83,7 @@ def make_explicit(D, name, fl):
     for f, o in zip(fl, lay["fields"]):
         if o["offset"] > pos:
             n = o["offset"] - pos
-            out.append([f"xpad{k}", "char", str(n), n])
+            out.append([f"xpad{k}" if k % 3 else f"padding_{k + 20}", "char", str(n), n])
             k += 1
         out.append(f)
         pos = o["offset"] + o["size"]
@@ -116,6 +116,9 @@ def gen_structs(rng, big=None, explicit=False):
             else:
                 ln = rng.choice([16, 31, 100, 255])
             fn = f"f{i}"
+            if rng.random() < 0.08:
+                # names a user may well give to padding or spare fields of their own
+                fn = rng.choice([f"padding_{i}", f"padding_spare{i}", f"pad_{i}", f"reserved_{i}", f"padding{i}"])
             fl.append([fn, t, None if ln is None else str(ln), ln])
         if explicit:
             fl = make_explicit(D, None, fl)
